@@ -515,6 +515,33 @@ impl Group for C12Node {
                     // the node state; B (at tb >= ta) runs completely; A continues.  Whatever the order the signer
                     // serialises them in, the approved amounts must respect the window bound (and nothing panics).
                     assert!(i + 1 == ops.len(), "n_race must be the last op of a case");
+                    // With the clock read before the lock (defect F25) a debug build aborts the whole process
+                    // (panic while the state lock is held, then a second panic in the `defer!` guard).  So the case
+                    // is first run in a child process; an abort there is the violation, with this case as replay.
+                    if std::env::var("VERIF_RACE_CHILD").is_err() {
+                        let tmp = std::env::temp_dir().join(format!("vls-verif-race-{}-{}.txt", std::process::id(), i));
+                        let mut txt = String::from("case 0\n");
+                        for o in ops { txt.push_str(o); txt.push('\n'); }
+                        std::fs::write(&tmp, txt).unwrap();
+                        let st = std::process::Command::new(std::env::current_exe().unwrap())
+                            .args(["C12", "--group", "1", "--replay", tmp.to_str().unwrap(), "--out", "/dev/null"])
+                            .env("VERIF_RACE_CHILD", "1")
+                            .stdout(std::process::Stdio::null())
+                            .stderr(std::process::Stdio::null())
+                            .status();
+                        let _ = std::fs::remove_file(&tmp);
+                        let aborted = match st { Ok(s) => !s.success(), Err(_) => false };
+                        if aborted {
+                            co.tags.insert("race:aborted".into());
+                            co.violations.push(Violation {
+                                kind: "overlapping-approvals-abort".into(),
+                                desc: format!("{}: the signer process aborts when two approvals overlap (a request that read the clock before taking the node state lock is overtaken by a later one: time goes backwards inside VelocityControl::insert)", op),
+                                at: i,
+                            });
+                            co.out.push("race aborted".into());
+                            continue;
+                        }
+                    }
                     let n = node.as_ref().expect("n_new first").clone();
                     let (ta, aa, tb, ab): (u64, u64, u64, u64) = (ta.parse().unwrap(), aa.parse().unwrap(), tb.parse().unwrap(), ab.parse().unwrap());
                     hash_ctr += 2;
